@@ -526,19 +526,27 @@ impl Ref {
                 via = Via::Ssrc;
             }
         }
-        let listing: Vec<u8> = (0..NL as u8).filter(|l| !self.void[*l as usize] && self.pts[*l as usize] & (1 << p.p) != 0).collect();
-        if target.is_none() && listing.len() == 1 {
-            target = Some(listing[0]);
+        let mut listing = 0u8;
+        let mut provs = 0u8;
+        for l in 0..NL {
+            if !self.void[l] {
+                if self.pts[l] & (1 << p.p) != 0 {
+                    listing |= 1 << l;
+                }
+                if self.prov[l] {
+                    provs |= 1 << l;
+                }
+            }
+        }
+        if target.is_none() && listing.count_ones() == 1 {
+            target = Some(listing.trailing_zeros() as u8);
             via = Via::Pt;
         }
         let mut prov_ok = None;
-        if target.is_none() {
-            let provs: Vec<u8> = (0..NL as u8).filter(|l| !self.void[*l as usize] && self.prov[*l as usize]).collect();
-            if provs.len() == 1 && listing.iter().all(|l| *l == provs[0]) {
-                // RID / MID / SSRC keys of other listeners cannot match here (target would be set);
-                // the only remaining registered key that can match is a payload type.
-                prov_ok = Some(provs[0]);
-            }
+        if target.is_none() && provs.count_ones() == 1 && listing & !provs == 0 {
+            // RID / MID / SSRC keys of other listeners cannot match here (target would be set);
+            // the only remaining registered key that can match is a payload type.
+            prov_ok = Some(provs.trailing_zeros() as u8);
         }
         if matches!(via, Via::Rid | Via::Mid | Via::Pt) {
             self.ssrc[p.s as usize] = target;
@@ -576,27 +584,188 @@ pub struct Viol {
     pub step: usize,
 }
 
+/// Bookkeeping model of the transport's registry *as implemented* (lazy pruning of closed
+/// senders included). It is used only as the key of the canonical-state merge of pass B — never
+/// as an oracle — and is itself checked at every step against the observed delivery; a history on
+/// which it mispredicts is never merged (`off_model`).
+#[derive(Clone, PartialEq, Eq, Hash, Debug)]
+pub struct Lazy {
+    by_ssrc: [Option<u8>; 3],
+    by_rid: [Option<u8>; 2],
+    by_mid: [Option<u8>; 2],
+    /// per listener: Some((pt mask, provisional)) when a route exists
+    routes: [Option<(u8, bool)>; NL],
+    closed: [bool; NL],
+    full: [bool; NL],
+    mid_on: bool,
+    rid_on: bool,
+}
+
+impl Lazy {
+    fn new(cfg: &Cfg) -> Lazy {
+        let mut z = Lazy { by_ssrc: [None; 3], by_rid: [None; 2], by_mid: [None; 2], routes: [None; NL], closed: [false; NL], full: [false; NL], mid_on: cfg.mid_on, rid_on: cfg.rid_on };
+        match cfg.special {
+            Some((l, Stat::ClosedBefore)) => z.closed[l as usize] = true,
+            Some((l, Stat::Full)) => z.full[l as usize] = true,
+            _ => {}
+        }
+        for o in &cfg.ops {
+            let l = o.l;
+            match o.k {
+                Kind::Ssrc(i) => z.bind(i, l),
+                Kind::Rid(i) => {
+                    z.prune(|z| &mut z.by_rid[..]);
+                    z.by_rid[i as usize] = Some(l);
+                }
+                Kind::Mid(i) => {
+                    z.by_mid[i as usize] = Some(l);
+                    z.route(l);
+                }
+                Kind::PtList(m) => z.route(l).0 = m,
+                Kind::Pt(i) => z.route(l).0 |= 1 << i,
+                Kind::Prov => z.route(l).1 = true,
+                Kind::Clear => {
+                    z.by_ssrc = [None; 3];
+                    z.by_rid = [None; 2];
+                    z.routes = [None; NL];
+                }
+            }
+        }
+        if let Some((l, Stat::ClosedAfter)) = cfg.special {
+            z.closed[l as usize] = true;
+        }
+        z
+    }
+    fn prune(&mut self, f: impl Fn(&mut Lazy) -> &mut [Option<u8>]) {
+        let closed = self.closed;
+        for e in f(self).iter_mut() {
+            if let Some(l) = *e {
+                if closed[l as usize] {
+                    *e = None;
+                }
+            }
+        }
+    }
+    fn bind(&mut self, s: u8, l: u8) {
+        self.prune(|z| &mut z.by_ssrc[..]);
+        self.by_ssrc[s as usize] = Some(l);
+    }
+    fn route(&mut self, l: u8) -> &mut (u8, bool) {
+        if self.routes[l as usize].is_none() {
+            for x in 0..NL {
+                if self.closed[x] {
+                    self.routes[x] = None;
+                }
+            }
+            self.routes[l as usize] = Some((0, false));
+        }
+        self.routes[l as usize].as_mut().unwrap()
+    }
+    /// predicted receiving listener (None = nothing is queued anywhere)
+    fn receive(&mut self, p: Pkt) -> Option<u8> {
+        let mut sel = None;
+        let mut bind = false;
+        if self.rid_on && (1..=2).contains(&p.rid) {
+            sel = self.by_rid[(p.rid - 1) as usize];
+            bind = sel.is_some();
+        }
+        if sel.is_none() && self.mid_on && (1..=2).contains(&p.mid) {
+            sel = self.by_mid[(p.mid - 1) as usize];
+            bind = sel.is_some();
+        }
+        if sel.is_none() {
+            sel = self.by_ssrc[p.s as usize];
+            bind = false;
+        }
+        let mut listing = 0u8;
+        let mut provs = 0u8;
+        for l in 0..NL {
+            if let Some(r) = self.routes[l] {
+                if r.0 & (1 << p.p) != 0 {
+                    listing |= 1 << l;
+                }
+                if r.1 {
+                    provs |= 1 << l;
+                }
+            }
+        }
+        if sel.is_none() && listing.count_ones() == 1 {
+            sel = Some(listing.trailing_zeros() as u8);
+            bind = true;
+        }
+        if sel.is_none() {
+            if provs.count_ones() == 1 {
+                sel = Some(provs.trailing_zeros() as u8);
+            }
+            bind = false;
+        }
+        let l = sel?;
+        if bind {
+            self.bind(p.s, l);
+        }
+        if self.closed[l as usize] {
+            self.by_ssrc[p.s as usize] = None;
+            for m in [&mut self.by_ssrc[..], &mut self.by_rid[..], &mut self.by_mid[..]] {
+                for e in m.iter_mut() {
+                    if *e == Some(l) {
+                        *e = None;
+                    }
+                }
+            }
+            self.routes[l as usize] = None;
+            return None;
+        }
+        if self.full[l as usize] {
+            return None;
+        }
+        Some(l)
+    }
+}
+
 #[derive(Clone, PartialEq, Eq, Hash, Debug)]
 pub struct Canon {
-    void_ssrc: [Option<u8>; 3],
-    keep_ssrc: [Option<u8>; 3],
-    bound: u8,
-    /// the closed receiver has been selected at least once (the transport then forgets it)
-    closed_hit: bool,
+    /// packed: reference SSRC bindings (void reading, keep reading), has_listener bits,
+    /// bookkeeping model (by_ssrc, by_rid, by_mid, routes, closed mask)
+    pub key: [u8; 18],
     /// a history on which the transport deviated from the reference (a violation was reported)
-    /// is never merged with another one
+    /// or from the bookkeeping model is never merged with another one
     deviant: Option<Vec<Pkt>>,
 }
 impl Canon {
     pub fn is_deviant(&self) -> bool {
         self.deviant.is_some()
     }
+    fn pack(void_ssrc: &[Option<u8>; 3], keep_ssrc: &[Option<u8>; 3], bound: u8, z: &Lazy) -> [u8; 18] {
+        let o = |x: Option<u8>| x.unwrap_or(0xFF);
+        let mut k = [0u8; 18];
+        for i in 0..3 {
+            k[i] = o(void_ssrc[i]);
+            k[3 + i] = o(keep_ssrc[i]);
+            k[7 + i] = o(z.by_ssrc[i]);
+            k[14 + i] = match z.routes[i] {
+                None => 0xFF,
+                Some((m, pr)) => m | (pr as u8) << 3,
+            };
+        }
+        k[6] = bound;
+        k[10] = o(z.by_rid[0]);
+        k[11] = o(z.by_rid[1]);
+        k[12] = o(z.by_mid[0]);
+        k[13] = o(z.by_mid[1]);
+        k[17] = (z.closed[0] as u8) | (z.closed[1] as u8) << 1 | (z.closed[2] as u8) << 2;
+        k
+    }
 }
 
+pub const MAXH: usize = 8;
+
 pub struct Run {
-    pub obs: Vec<Obs>,
-    pub dec_void: Vec<Decision>,
-    pub dec_keep: Vec<Decision>,
+    /// steps at which the bookkeeping model mispredicted the observed delivery
+    pub off_model: u32,
+    pub n: usize,
+    pub obs: [Obs; MAXH],
+    pub dec_void: [Decision; MAXH],
+    pub dec_keep: [Decision; MAXH],
     pub viols: Vec<Viol>,
     pub canon: Canon,
 }
@@ -611,13 +780,11 @@ pub fn run(cfg: &Cfg, hist: &[Pkt], conn: &Arc<IceConn>) -> Run {
     let mut rv = Ref::new(cfg, true);
     let mut rk = Ref::new(cfg, false);
     let has_clear = cfg.ops.iter().any(|o| o.k == Kind::Clear);
-    let mut out = Run { obs: vec![], dec_void: vec![], dec_keep: vec![], viols: vec![], canon: Canon { void_ssrc: [None; 3], keep_ssrc: [None; 3], bound: 0, closed_hit: false, deviant: None } };
+    let mut lz = Lazy::new(cfg);
+    assert!(hist.len() <= MAXH, "C19-HARNESS: history too long");
+    let nodec = Decision { target: None, via: Via::Nobody, prov_ok: None };
+    let mut out = Run { off_model: 0, n: hist.len(), obs: [Obs::default(); MAXH], dec_void: [nodec; MAXH], dec_keep: [nodec; MAXH], viols: vec![], canon: Canon { key: [0; 18], deviant: None } };
     let mut bound = 0u8;
-    let mut closed_hit = false;
-    let closed_l = match cfg.special {
-        Some((l, Stat::ClosedBefore | Stat::ClosedAfter)) => Some(l),
-        _ => None,
-    };
     for (i, p) in hist.iter().enumerate() {
         // keys as they stand before the packet (for signatures)
         let rk_before = rk.clone();
@@ -625,8 +792,10 @@ pub fn run(cfg: &Cfg, hist: &[Pkt], conn: &Arc<IceConn>) -> Run {
         let dv = rv.demux(*p);
         let dk = rk.demux(*p);
         bound = o.bound;
-        if closed_l.is_some() && (dk.target == closed_l || (dk.target.is_none() && dk.prov_ok == closed_l)) {
-            closed_hit = true;
+        let predicted = lz.receive(*p);
+        let lazy_bound = (0..3).fold(0u8, |m, i| m | ((lz.by_ssrc[i].is_some() as u8) << i));
+        if predicted.map(|l| 1u8 << l).unwrap_or(0) != o.delivered || lazy_bound != o.bound {
+            out.off_model += 1;
         }
         let sp = cfg.special.map(|(_, s)| s.name()).unwrap_or("none");
         if o.foreign {
@@ -656,12 +825,17 @@ pub fn run(cfg: &Cfg, hist: &[Pkt], conn: &Arc<IceConn>) -> Run {
                 };
                 let wv = want(&dv);
                 let wk = want(&dk);
-                let wants = if wv == wk { wv } else { format!("{wv}|{wk}") };
+                let wants = if wv == wk { wv.clone() } else { format!("{wv}|{wk}") };
+                let status = match cfg.special {
+                    None => "open",
+                    Some((_, Stat::Full)) => "full",
+                    Some(_) => "closed",
+                };
                 let got = rk_before.matching_keys(d, *p);
                 out.viols.push(Viol {
-                    sig: format!("demux;misdelivery;got={got};want={wants};special={sp}{}", if has_clear { ";after-clear" } else { "" }),
+                    sig: format!("demux;misdelivery;got={got};want={wv};receivers={status}{}", if has_clear { ";after-clear" } else { "" }),
                     detail: format!(
-                        "step {i}: packet {} was delivered to {} (its registered keys matching the packet: {got}); the statement identifies {} via {} (closed receivers void) / {} via {} (closed receivers kept){}",
+                        "step {i}: packet {} was delivered to {} (its registered keys matching the packet: {got}; expected by {wants}); the statement identifies {} via {} (closed receivers void) / {} via {} (closed receivers kept){}",
                         p.short(),
                         lname(d),
                         dv.target.map(lname).unwrap_or("nobody".into()),
@@ -677,9 +851,9 @@ pub fn run(cfg: &Cfg, hist: &[Pkt], conn: &Arc<IceConn>) -> Run {
                 });
             }
         }
-        out.obs.push(o);
-        out.dec_void.push(dv);
-        out.dec_keep.push(dk);
+        out.obs[i] = o;
+        out.dec_void[i] = dv;
+        out.dec_keep[i] = dk;
     }
     if hist.is_empty() {
         for (i, s) in SSRC.iter().enumerate() {
@@ -688,8 +862,8 @@ pub fn run(cfg: &Cfg, hist: &[Pkt], conn: &Arc<IceConn>) -> Run {
             }
         }
     }
-    let deviant = if out.viols.is_empty() { None } else { Some(hist.to_vec()) };
-    out.canon = Canon { void_ssrc: rv.ssrc, keep_ssrc: rk.ssrc, bound, closed_hit, deviant };
+    let deviant = if out.viols.is_empty() && out.off_model == 0 { None } else { Some(hist.to_vec()) };
+    out.canon = Canon { key: Canon::pack(&rv.ssrc, &rk.ssrc, bound, &lz), deviant };
     out
 }
 
@@ -826,6 +1000,7 @@ pub struct Stats {
     pub reg_ops: u64,
     pub merged_pairs_checked: u64,
     pub deviant_not_expanded: u64,
+    pub off_model_histories: u64,
     pub delivered_via: [u64; 6], // rid, mid, ssrc, pt, prov, unidentified(0)
     pub dropped_identified: u64,
     pub dropped_nobody: u64,
@@ -845,6 +1020,7 @@ impl Stats {
         self.reg_ops += o.reg_ops;
         self.merged_pairs_checked += o.merged_pairs_checked;
         self.deviant_not_expanded += o.deviant_not_expanded;
+        self.off_model_histories += o.off_model_histories;
         for i in 0..6 {
             self.delivered_via[i] += o.delivered_via[i];
         }
@@ -879,7 +1055,7 @@ impl Stats {
 
 fn tally(st: &mut Stats, cfg: &Cfg, r: &Run) {
     // classify the last step only (each history's last step is a distinct event)
-    let i = r.obs.len() - 1;
+    let i = r.n - 1;
     let o = r.obs[i];
     let dk = r.dec_keep[i];
     let dv = r.dec_void[i];
@@ -947,6 +1123,9 @@ pub fn explore(cfg: &Cfg, d1: usize, d2: usize, conn: &Arc<IceConn>) -> Stats {
             st.transitions += h2.len() as u64;
             st.reg_ops += cfg.ops.len() as u64;
             tally(&mut st, cfg, &r);
+            if r.off_model > 0 {
+                st.off_model_histories += 1;
+            }
             for v in r.viols.iter().filter(|v| v.step == h2.len() - 1) {
                 st.add_viol((v.clone(), cfg.clone(), h2.clone()));
             }
@@ -955,9 +1134,9 @@ pub fn explore(cfg: &Cfg, d1: usize, d2: usize, conn: &Arc<IceConn>) -> Stats {
             if r.canon.is_deviant() {
                 mix(0xdead);
             } else {
-                let mut hs = std::collections::hash_map::DefaultHasher::new();
-                std::hash::Hash::hash(&r.canon, &mut hs);
-                mix(std::hash::Hasher::finish(&hs));
+                for b in r.canon.key {
+                    mix(b as u64);
+                }
             }
             if h2.len() < d1 {
                 canon_of.insert(h2.clone(), r.canon.clone());
